@@ -285,7 +285,7 @@ pub fn check(bytes: &[u8], _ctx: &Ctx) -> Verdict {
             )
         }
     }
-    let nontrivial = !case.faults.is_empty();
+    let nontrivial = !case.faults.is_empty() && info.num_multi() >= 1;
     Verdict::Pass {
         nontrivial: if nontrivial {
             Some(hash_bytes(format!("{}|{:?}", case.built.tree.brief(), case.input).as_bytes()))
@@ -306,7 +306,7 @@ pub fn prop() -> Prop {
         id: "C14",
         check,
         describe,
-        rule: "small generated games x a valid named profile (optionally unnormalised by a constant) x 0-4 stream-chosen edits from {reorder, duplicate infoset entry with other weights, duplicate action, drop infoset, empty action list, all zeros, unknown infoset, other player's infoset, unknown action, action of another infoset, special weight in {-1,-0,0,1e-300,1e100,NaN,+-inf,5e-324}, drop action}; oracle: an independent model of the documented rules (entries in order, last write wins) giving Ok(profile) or the set of violated rules' kinds; from_named and from_named_eq must agree exactly. Non-trivial = at least one edit or unnormalised weights; distinct by (tree, input).",
+        rule: "small generated games x a valid named profile (optionally unnormalised by a constant) x 0-4 stream-chosen edits from {reorder, duplicate infoset entry with other weights, duplicate action, drop infoset, empty action list, all zeros, unknown infoset, other player's infoset, unknown action, action of another infoset, special weight in {-1,-0,0,1e-300,1e100,NaN,+-inf,5e-324}, drop action}; oracle: an independent model of the documented rules (entries in order, last write wins) giving Ok(profile) or the set of violated rules' kinds; from_named and from_named_eq must agree exactly. Non-trivial = the game has a multi-action infoset and the input carries at least one edit or unnormalised weights; distinct by (tree, input).",
         max_len: 700,
         cases_quick: 1_500_000,
         cases_thorough: 20_000_000,
